@@ -69,6 +69,7 @@ fn main() {
             show(&args[2..]);
             0
         }
+        "grammar-coverage" => grammar_coverage(&args[2..]),
         "C05" => c05::run(&report::tier_from_env(args.get(2).map(|s| s.as_str())), report::seed_from_env()),
         "c05-worker" => c05::worker(&args[2..]),
         "c05-ladder" => c05::ladder_worker(&args[2..]),
@@ -267,6 +268,59 @@ fn literal_wrappers(m: &Model, ks: &[usize]) -> Vec<(String, String)> {
 fn prose_extra(thorough: bool) -> ExtraLevel {
     let n = if thorough { 2 } else { 1 };
     ExtraLevel { name: format!("prose sequences <= {n} in markup contexts and at markup edges"), inputs: families::prose(n, false) }
+}
+
+/// Development aid (not a check): (parent kind, child kind) pairs and child-kind triples that occur
+/// in the given Typst files but in no canonical instance of the model (contexts x spines k <= 2,
+/// plus the free-standing families). Each line names a piece of grammar the sweep never builds.
+fn grammar_coverage(files: &[String]) -> i32 {
+    use std::collections::{BTreeMap, BTreeSet};
+    fn pairs(n: &typst_syntax::SyntaxNode, out: &mut BTreeSet<String>) {
+        let kids: Vec<&typst_syntax::SyntaxNode> = n.children().filter(|c| c.kind() != typst_syntax::SyntaxKind::Space).collect();
+        for (i, c) in kids.iter().enumerate() {
+            out.insert(format!("{:?}>{:?}", n.kind(), c.kind()));
+            if i + 1 < kids.len() {
+                out.insert(format!("{:?}>[{:?} {:?}]", n.kind(), c.kind(), kids[i + 1].kind()));
+            }
+            pairs(c, out);
+        }
+    }
+    let m = Model::new();
+    let mut have = BTreeSet::new();
+    for sk in sweep::skeletons(&m, &all_ctx(), &[0, 1, 2], &[Size::Short]) {
+        let t = m.instantiate(&sk);
+        let r = tyv_model::syntax::parse(&t);
+        if !r.erroneous() {
+            pairs(&r, &mut have);
+        }
+    }
+    for (_, t) in families::prose(2, false).into_iter().chain(families::math(2)).chain(families::markup_literals()).chain(families::imports(2, &[])) {
+        let r = tyv_model::syntax::parse(&t);
+        if !r.erroneous() {
+            pairs(&r, &mut have);
+        }
+    }
+    let mut missing: BTreeMap<String, (usize, String)> = BTreeMap::new();
+    for f in files {
+        let Ok(t) = std::fs::read_to_string(f) else { continue };
+        let r = tyv_model::syntax::parse(&t);
+        if r.erroneous() {
+            continue;
+        }
+        let mut p = BTreeSet::new();
+        pairs(&r, &mut p);
+        for x in p {
+            if !have.contains(&x) {
+                let e = missing.entry(x).or_insert((0, f.clone()));
+                e.0 += 1;
+            }
+        }
+    }
+    println!("model has {} kind pairs/triples; {} occur in the given files but not in the model:", have.len(), missing.len());
+    for (k, (n, f)) in &missing {
+        println!("{n:4} {k}   e.g. {f}");
+    }
+    0
 }
 
 fn plan_for(id: &str, thorough: bool) -> Option<Plan> {
